@@ -2358,7 +2358,9 @@ class BaseInterpreter(Generic[TContext, TEvent]):
                 #    re-completes its own state fed itself forever, without
                 #    ever yielding to the event loop).
                 if getattr(self, "_processing", False):
-                    self._raise_depth = getattr(self, "_raise_depth", 0) + 1
+                    self._next_event_depth = (
+                        getattr(self, "_raise_depth", 0) + 1
+                    )
                 await self.send(done_event)
                 # Per SCXML, only fire for the first completed ancestor.
                 return
